@@ -3,7 +3,7 @@ import importlib
 
 MODULES = ["jobs_coeffs", "jobs_vec", "jobs_rot"]
 
-CLAIMED = ["C05", "C08", "C09", "C13", "C11", "C18"]
+CLAIMED = ["C05", "C07", "C08", "C09", "C13", "C11", "C18"]
 LEVEL = {"C12": "other", "C15": "other"}
 EXPLAIN = {}
 
